@@ -9,6 +9,9 @@ CLAIMED = {
     "C03": ("proof", "contract-based deductive verification: VCs generated from the real AST (pyvc), discharged by z3/cvc5; bounded-shape stand-in for witnesses",
             "Unbounded verification conditions for the rung/quantile/stop-decision functions of stopping-type Hyperband, generated from /repo's source on every run; every obligation must be discharged. Counter-models are replayed natively.",
             "Floats are reals (A-REAL); SortedList contract trusted; pyvc's encoding of Python and the SMT solvers are trusted; bracket sampling not covered.", "5/C03"),
+    "C05": ("exploration", "contracts on the real functions decided by bounded symbolic execution (pyvc, concrete shapes, all values symbolic) with z3; harness drives the real bracket manager through every arrival order up to a bound",
+            "Bounded stand-in, not a proof: get_top_list against its specification for rungs of <= 4 entries (metrics and NaN flags symbolic), and the real SynchronousHyperbandBracketManager under every order of up to 5 (thorough: 7) result events with 2 jobs in flight on three rung systems; every clause must hold on every explored path.",
+            "Bounded shapes (stated in evidence); A-REAL with explicit NaN flag; DEHB brackets not covered; pyvc encoding and z3 trusted.", "5/C05"),
     "C04": ("proof", "contract-based deductive verification: VCs generated from the real AST (pyvc) with loop invariants and modular callee contracts, discharged by z3/cvc5; bounded-shape stand-in for the cost-aware variant and for witnesses",
             "Unbounded verification conditions (rung contents of any length, 0..3 rungs) for PromotionRungSystem (find/mark/schedule/add/report/remove) and PASHA's resource cap in on_task_schedule, from /repo's source on every run; cost-aware eligibility bounded (<=4 entries).",
             "A-REAL; SortedList contract trusted; number of rungs concrete in proof units; cost values non-negative; PASHA ranking/epsilon logic and DyHPO not covered; pyvc encoding and SMT solvers trusted.", "5/C04"),
